@@ -9,6 +9,47 @@ def cps(s):
 
 
 def dump(v):
+    """same text as dump_rec, without recursion (a flat chain of 1500 operands is a 1500-deep left-nested tree)"""
+    out = []
+    stack = [v]
+    while stack:
+        x = stack.pop()
+        if isinstance(x, _Lit):
+            out.append(x.s)
+        elif x is None or x is True or x is False or isinstance(x, (enum.Enum, int, str)):
+            out.append(dump_rec(x))
+        elif isinstance(x, (tuple, list)):
+            o, c = ("(", ")") if isinstance(x, tuple) else ("[", "]")
+            items = [_Lit(c)]
+            for i, e in enumerate(reversed(x)):
+                items.append(e)
+                if i != len(x) - 1:
+                    items.append(_Lit(","))
+            items.append(_Lit(o))
+            stack.extend(items)
+        elif dataclasses.is_dataclass(x) and not isinstance(x, type):
+            fs = dataclasses.fields(x)
+            items = [_Lit("}")]
+            for i, f in enumerate(reversed(fs)):
+                items.append(getattr(x, f.name))
+                items.append(_Lit(f.name + "="))
+                if i != len(fs) - 1:
+                    items.append(_Lit(";"))
+            items.append(_Lit(type(x).__name__ + "{"))
+            stack.extend(items)
+        else:
+            out.append(dump_rec(x))
+    return "".join(out)
+
+
+class _Lit:
+    __slots__ = ("s",)
+
+    def __init__(self, s):
+        self.s = s
+
+
+def dump_rec(v):
     if v is None:
         return "None"
     if v is True:
@@ -22,15 +63,15 @@ def dump(v):
     if isinstance(v, str):
         return "s:" + cps(v)
     if isinstance(v, tuple):
-        return "(" + ",".join(dump(x) for x in v) + ")"
+        return "(" + ",".join(dump_rec(x) for x in v) + ")"
     if isinstance(v, list):
-        return "[" + ",".join(dump(x) for x in v) + "]"
+        return "[" + ",".join(dump_rec(x) for x in v) + "]"
     if dataclasses.is_dataclass(v) and not isinstance(v, type):
-        return "%s{%s}" % (type(v).__name__, ";".join("%s=%s" % (f.name, dump(getattr(v, f.name))) for f in dataclasses.fields(v)))
+        return "%s{%s}" % (type(v).__name__, ";".join("%s=%s" % (f.name, dump_rec(getattr(v, f.name))) for f in dataclasses.fields(v)))
     if isinstance(v, (set, frozenset)):
-        return "{" + ",".join(sorted(dump(x) for x in v)) + "}"
+        return "{" + ",".join(sorted(dump_rec(x) for x in v)) + "}"
     if isinstance(v, dict):
-        return "<" + ",".join("%s:%s" % (dump(k), dump(x)) for k, x in v.items()) + ">"
+        return "<" + ",".join("%s:%s" % (dump_rec(k), dump_rec(x)) for k, x in v.items()) + ">"
     return "?%s" % type(v).__name__
 
 
